@@ -43,12 +43,12 @@ ASSUMPTIONS = ["histories up to 20 (quick) / 30 (thorough) steps over the listed
 VALID = [q.name for q in quant.ALL] + ["overlap_integral_asymmetric", "overlap_integral[screened]", "make_contractions",
                                        "parse_nwchem", "parse_gbs", "evaluate_density_using_evaluated_orbs",
                                        "evaluate_general_kinetic_energy_density", "evaluate_deriv_reduced_density_matrix",
-                                       "iodata:0:eval", "iodata:1:eval", "iodata:0:overlap", "iodata:1:overlap", "iodata:0:deriv",
+                                       "overlap_integral[tol_screen=0]", "iodata:0:eval", "iodata:1:eval", "iodata:0:overlap", "iodata:1:overlap", "iodata:0:deriv",
                                        "iodata:1:deriv"]
 INVALID = ["points-wrong-shape", "points-object-dtype", "charges-wrong-length", "charges-non-numeric", "esp-non-numeric-charges",
            "esp-non-numeric-coords", "esp-negative-threshold", "esp-gamma-wrong-size", "eri-bad-notation", "deriv-bad-type",
            "deriv-negative-order", "deriv-float-order", "density-nonsymmetric", "density-wrong-size", "moment-float-orders",
-           "overlap-bool-tol", "make_contractions-short-list", "make_contractions-bad-string", "stress-bad-alpha",
+           "overlap-bool-tol", "overlap-string-tol", "overlap-negative-tol", "make_contractions-short-list", "make_contractions-bad-string", "stress-bad-alpha",
            "basis-not-a-list", "transform-wrong-shape", "shell-bad-coord-type", "parse-missing-file"]
 ERR = ["ignore", "warn", "raise"]
 NWCHEM = 'BASIS "ao basis" PRINT\nH    S\n      3.42525091         0.15432897\n      0.62391373         0.53532814\nH    SP\n      1.5   0.3  0.4\n      0.4   0.7  0.6\nEND\n'
@@ -148,6 +148,8 @@ class World:
             return overlap_integral_asymmetric(shells[:1], shells[1:])
         if name == "overlap_integral[screened]":
             return overlap_integral(shells, tol_screen=1e-4)
+        if name == "overlap_integral[tol_screen=0]":
+            return overlap_integral(shells, tol_screen=0.0)
         if name == "make_contractions":
             out = make_contractions(aux["basis_dict"], aux["atoms"], aux["coords"], aux["coord_types"])
             return np.concatenate([np.concatenate([s.coord, s.exps, s.coeffs.ravel(), s.norm_cont.ravel()]) for s in out])
@@ -207,6 +209,10 @@ class World:
             return moment_integral(b, e["origin"], e["orders"].astype(float))
         if kind == "overlap-bool-tol":
             return overlap_integral(b, tol_screen=True)
+        if kind == "overlap-string-tol":
+            return overlap_integral(b, tol_screen="1e-8")
+        if kind == "overlap-negative-tol":
+            return overlap_integral(b, tol_screen=-1.0)
         if kind == "make_contractions-short-list":
             return make_contractions(self.basis_dict, self.atoms, self.coords, self.coord_types[:1])
         if kind == "make_contractions-bad-string":
